@@ -279,6 +279,21 @@ def reference_model(rep, rec, path):
                     '%s: a reference primitive is applied to a pointer that the same path has '
                     'already set to NULL (exit at line %s)' % (where, line),
                     dict(file=name, function=fname, cls=f['cls'], exit=kind, line=line))
+            if led.get('<early>'):
+                a_, x_ = led['<early>']
+                rec('early-release:%s:%s' % (name, fname),
+                    '%s: %s is released before the result %s, which may be that very node, is '
+                    'referenced or known to be NULL (exit at line %s)' % (where, a_, x_, line),
+                    dict(file=name, function=fname, cls=f['cls'], exit=kind, line=line))
+            for k in led:
+                if k.startswith('<orphan>') and led[k] and not (
+                        kind == 'RaiseStatNode' and detail in DEFENSIVE_RAISES):
+                    rec('orphaned-reference:%s:%s' % (name, fname),
+                        '%s: the variable %s is overwritten while it still carries %+d '
+                        'reference(s); they are never released (exit at line %s)' % (
+                            where, k[8:], led[k], line),
+                        dict(file=name, function=fname, cls=f['cls'], exit=kind, line=line,
+                             variable=k[8:]))
             for k in led:
                 if k.startswith('<shallow>'):
                     var = k[len('<shallow>'):]
@@ -299,7 +314,8 @@ def reference_model(rep, rec, path):
             scalar = {k: v for k, v in led.items()
                       if '[]' not in k and not k.startswith('<') and
                       k.split('.')[0] not in cvars}
-            container = {k: v for k, v in led.items() if k not in scalar and v}
+            container = {k: v for k, v in led.items()
+                         if k not in scalar and v and not k.startswith('<')}
             if container:
                 rep.mark('container_mediated', where)
             field = {k: v for k, v in scalar.items() if k.endswith('._ref')}
